@@ -69,7 +69,7 @@ var propertyCanaries = map[string][]string{
 	"C16": {"NILGUARD.sibling", "ERR.overwrite", "ERR.swallow", "RESET.revive", "DECODE.order", "DECODE.errdrop", "DECODE.mul", "DECODE.selfcmp", "DECODE.clone", "DECODE.fields"},
 	"C17": {"GLOBAL.state", "CMPLX.parts", "RESET.noleak", "GLOBAL.write", "RESET.fields", "WINDOW.pointwise"},
 	"C18": {"ERR.overwrite", "ERR.swallow", "SETTINGS.readonly", "RAW.stride", "SWAP.cond", "GOPROTO.accumzero", "CONST.stencil", "GOPROTO.sibling"},
-	"C19": {"INIT.complete", "GOPROTO.latch", "ERR.overwrite", "ERR.swallow", "SETTINGS.readonly", "OPT.maskpair", "ALIAS.config", "OPT.limits", "GOPROTO.scratch", "GOPROTO.run", "INIT.state"},
+	"C19": {"STATUS.dropped", "INIT.complete", "GOPROTO.latch", "ERR.overwrite", "ERR.swallow", "SETTINGS.readonly", "OPT.maskpair", "ALIAS.config", "OPT.limits", "GOPROTO.scratch", "GOPROTO.run", "INIT.state"},
 }
 
 func init() {
@@ -118,6 +118,7 @@ func init() {
 		{"ITER.remaining", "graph/iterator/nodes.go", "\treturn len(n.nodes[n.idx+1:])", "\treturn len(n.nodes[n.idx:])", func() *core.Result { return graphinv.RunIterFamily(def) }},
 		{"STRIDE.argmaxbase", "lapack/gonum/dgetf2.go", "jp := j + bi.Idamax(m-j, a[j*lda+j:], lda)", "jp := j + bi.Idamax(m-j-1, a[(j+1)*lda+j:], lda)", func() *core.Result { return stride.RunArgmaxBase(def, core.Pkgs("./lapack/gonum")) }},
 		{"LOOPFLAG.stale", "lapack/gonum/dsteqr.go", "\t\tvar iscale scaletype\n\x00\tfor {\n\t\tif l1 > n-1 {", "\x00\tvar iscale scaletype\n\tfor {\n\t\tif l1 > n-1 {", func() *core.Result { return loopidx.RunStaleFlag(def, core.Pkgs("./lapack/gonum")) }},
+		{"STATUS.dropped", "optimize/local.go", "\tif status != NotTerminated {\n\t\t// The starting location already satisfies the gradient threshold.\n\t\tl.finishMethodDone(operation, result, task)\n\t\treturn status, nil\n\t}\n", "", func() *core.Result { return errx.RunStatusDropped(def, core.Pkgs("./optimize")) }},
 		{"ARGS.workquery", "lapack/gonum/dgeqrf.go", "case len(work) < max(1, lwork):", "case len(work) < lwork:", func() *core.Result { return flagx.RunWorkQuery(def, core.Pkgs("./lapack/gonum")) }},
 		{"ARGS.callee", "lapack/gonum/dsytrd.go", "case len(d) < n:", "case len(d) < n-1:", func() *core.Result { return worksize.RunCallee(def, core.Pkgs("./lapack/gonum")) }},
 		{"GRAPHINV.together", "graph/simple/weighted_undirected.go", "\tif fm, ok := g.edges[fid]; ok {\n\t\tfm[tid] = e\n\t} else {", "\tif fm, ok := g.edges[fid]; ok {\n\t\t_, exists := fm[tid]\n\t\tfm[tid] = e\n\t\tif exists {\n\t\t\treturn\n\t\t}\n\t} else {", func() *core.Result { return graphinv.Run(def) }},
